@@ -875,6 +875,141 @@ def normalise_enumerate_range(fnode):
     return T().visit(copy.deepcopy(fnode))
 
 
+def expand_kwargs(fnode, resolve=None):
+    """Calls `f(a=1, **D)` with a keyword dictionary D that can be read are
+    rewritten with explicit keywords.  D may be a dict literal / `dict(k=v)`, a
+    local with one such definition (plus `D.update(...)`), or the result of a
+    private helper `self._h(**overrides)` whose body builds a dict literal,
+    updates it with its `**overrides` and returns it.  `resolve(name)` gives the
+    helper's FunctionDef or None."""
+    import copy
+    fnode = copy.deepcopy(fnode)
+
+    def merged(parts):
+        out = {}
+        for d in parts:
+            if d is None:
+                return None
+            out.update(d)
+        return out
+
+    def dict_of(e, scope, env, depth=0):
+        """{key: value expr} or None"""
+        if depth > 4:
+            return None
+        if isinstance(e, ast.Dict):
+            parts = []
+            for k, v in zip(e.keys, e.values):
+                if k is None:
+                    parts.append(dict_of(v, scope, env, depth + 1))
+                elif isinstance(k, ast.Constant) and isinstance(k.value, str):
+                    parts.append({k.value: v})
+                else:
+                    return None
+            return merged(parts)
+        if isinstance(e, ast.Call) and isinstance(e.func, ast.Name) and e.func.id == "dict" \
+                and len(e.args) <= 1:
+            parts = [dict_of(e.args[0], scope, env, depth + 1)] if e.args else []
+            for k in e.keywords:
+                parts.append({k.arg: k.value} if k.arg else
+                             dict_of(k.value, scope, env, depth + 1))
+            return merged(parts)
+        if isinstance(e, ast.Name):
+            if e.id in env:
+                return dict(env[e.id])
+            defs = [st for st in ast.walk(scope) if isinstance(st, ast.Assign) and
+                    len(st.targets) == 1 and isinstance(st.targets[0], ast.Name) and
+                    st.targets[0].id == e.id]
+            if len(defs) != 1:
+                return None
+            d = dict_of(defs[0].value, scope, env, depth + 1)
+            if d is None:
+                return None
+            for st in ast.walk(scope):
+                if isinstance(st, ast.Expr) and isinstance(st.value, ast.Call) and \
+                        isinstance(st.value.func, ast.Attribute) and \
+                        isinstance(st.value.func.value, ast.Name) and \
+                        st.value.func.value.id == e.id:
+                    c = st.value
+                    if c.func.attr != "update" or len(c.args) > 1:
+                        return None
+                    parts = [d]
+                    if c.args:
+                        parts.append(dict_of(c.args[0], scope, env, depth + 1))
+                    for k in c.keywords:
+                        parts.append({k.arg: k.value} if k.arg else
+                                     dict_of(k.value, scope, env, depth + 1))
+                    d = merged(parts)
+                    if d is None:
+                        return None
+                elif isinstance(st, (ast.Subscript,)) and isinstance(st.ctx, ast.Store) and \
+                        isinstance(st.value, ast.Name) and st.value.id == e.id:
+                    return None
+            return d
+        if isinstance(e, ast.Call) and isinstance(e.func, ast.Attribute) and \
+                isinstance(e.func.value, ast.Name) and resolve is not None:
+            h = resolve(e.func.attr)
+            if h is None or e.args:
+                return None
+            a = h.args
+            if a.vararg or len(a.args) != 1:
+                # (self, **overrides) or (self, *, k=..): keep to the simple shape
+                if a.vararg or len(a.args) < 1:
+                    return None
+            given = {}
+            for k in e.keywords:
+                if k.arg:
+                    given[k.arg] = k.value
+                else:
+                    d = dict_of(k.value, scope, env, depth + 1)
+                    if d is None:
+                        return None
+                    given.update(d)
+            names = [x.arg for x in a.args[1:]] + [x.arg for x in a.kwonlyargs]
+            if names:
+                return None
+            if a.kwarg is None and given:
+                return None
+            henv = {a.kwarg.arg: given} if a.kwarg is not None else {}
+            rets = [r for r in ast.walk(h) if isinstance(r, ast.Return)]
+            if len(rets) != 1 or rets[0].value is None:
+                return None
+            d = dict_of(rets[0].value, h, henv, depth + 1)
+            if d is None:
+                return None
+            # the helper's self is the caller's receiver
+            hself = a.args[0].arg
+            recv = e.func.value
+
+            class S(ast.NodeTransformer):
+                def visit_Name(self, n):
+                    return ast.copy_location(copy.deepcopy(recv), n) if n.id == hself else n
+            return {k: (S().visit(copy.deepcopy(v)) if v not in given.values() else v)
+                    for k, v in d.items()}
+        return None
+
+    class T(ast.NodeTransformer):
+        def visit_Call(self, c):
+            self.generic_visit(c)
+            if not any(k.arg is None for k in c.keywords):
+                return c
+            kws = []
+            for k in c.keywords:
+                if k.arg is not None:
+                    kws.append(k)
+                    continue
+                d = dict_of(k.value, fnode, {})
+                if d is None:
+                    return c
+                for kk, vv in d.items():
+                    kws.append(ast.keyword(arg=kk, value=vv))
+            if len({k.arg for k in kws}) != len(kws):
+                return c
+            c.keywords = kws
+            return ast.fix_missing_locations(c)
+    return T().visit(fnode)
+
+
 def normalise_chunk_table(fnode):
     """A chunk table built by one comprehension and consumed by loops,
         T = [(S(k), E(k)) for k in range(P)]
